@@ -27,22 +27,22 @@ TRACE = os.path.join(tlc.SPECS, 'SchedTrace.tla')
 
 INV_C01 = ['C01_DepsFinal', 'C01_PayloadVisible', 'C01_RunningState']
 INV_C02 = ['C02_AtMostOnce', 'C02_Outcome', 'C02_NoForeignUpdate', 'C02_SoftNeverSkips', 'C02_FromEmptyNeverRaises']
-INV_C03 = ['C03_Clean', 'TypeOK']
+INV_C03 = ['C03_Clean', 'M_QueueJoinable', 'TypeOK']
 ACTIONS = ['MStart', 'MAcqCv', 'MDecide', 'MPut', 'MWake', 'MQJoin', 'MStop', 'MJoin',
-           'WStart', 'WGet', 'WDoStart', 'WPublish', 'WTaskDone', 'WNotify']
+           'WStart', 'WGet', 'WDoStart', 'WPublish', 'WTaskDone', 'WStopDone', 'WNotify']
 OWNS = {'C01': ('C01_',), 'C02': ('C02_',), 'C03': ('C03_',)}
 
 
-def _consts(n, w, configs, atomic=True):
-    return {'N': n, 'W': w, 'AtomicPublish': atomic, 'Configs': Raw('<- ' + configs), 'None': Raw('None')}
+def _consts(n, w, configs, atomic=True, calls=1):
+    return {'N': n, 'W': w, 'AtomicPublish': atomic, 'Calls': calls, 'Configs': Raw('<- ' + configs), 'None': Raw('None')}
 
 
 # ---------------------------------------------------------------------------
 # model checking
 # ---------------------------------------------------------------------------
 def model_check(ctx, wd, name, n, w, configs, invariants, *, atomic=True, deadlock=True, properties=(), spec='Spec',
-                expect_violation=None, coverage=True, timeout=1700):
-    cfg = tlc.write_cfg(os.path.join(wd, name + '.cfg'), spec=spec, constants=_consts(n, w, configs, atomic),
+                expect_violation=None, coverage=True, timeout=1700, calls=1):
+    cfg = tlc.write_cfg(os.path.join(wd, name + '.cfg'), spec=spec, constants=_consts(n, w, configs, atomic, calls),
                         invariants=invariants, properties=properties, deadlock=deadlock)
     res = tlc.run(SPEC_MC, cfg, coverage=coverage, timeout=timeout)
     ctx.tlc(res, 'Sched/' + name)
@@ -134,7 +134,12 @@ def replay_behaviour(cfg, beh):
         if thr is None:
             break
         steps.append((thr, label, st))
-    strat = detsched.Replay([s[0] for s in steps], strict=False)
+    tids = []
+    cur_call = 1
+    for thr, label, st in steps:
+        tids.append(thr if thr == 0 else thr + (cur_call - 1) * w)
+        cur_call = st.get('call', cur_call)
+    strat = detsched.Replay(tids, strict=False)
     ex, trace = schedrun.record(cfg, strat)
     mismatch = None
     model_order = list(F(beh[0][1]['order']).values()) if isinstance(F(beh[0][1]['order']), dict) else list(beh[0][1]['order'])
@@ -183,11 +188,11 @@ def _cyclic(cfg):
     return any(visit(u) for u in list(adj))
 
 
-def simulate_and_replay(ctx, wd, name, n, w, configs, num, depth, seed):
+def simulate_and_replay(ctx, wd, name, n, w, configs, num, depth, seed, calls=1):
     """TLC -simulate -> behaviours -> forced on the implementation, state compared after every step."""
     sim = os.path.join(wd, 'sim_' + name)
     os.makedirs(sim, exist_ok=True)
-    cfg = tlc.write_cfg(os.path.join(wd, name + '_sim.cfg'), constants=_consts(n, w, configs), deadlock=False)
+    cfg = tlc.write_cfg(os.path.join(wd, name + '_sim.cfg'), constants=_consts(n, w, configs, calls=calls), deadlock=False)
     res = tlc.run(SPEC_MC, cfg, workers=1, simulate=dict(num=num, file=os.path.join(sim, 'b')), depth=depth, seed=seed,
                   coverage=False, timeout=900)
     behs = tlc.read_sim_files(os.path.join(sim, 'b'))
@@ -195,6 +200,8 @@ def simulate_and_replay(ctx, wd, name, n, w, configs, num, depth, seed):
     ndrift = 0
     for beh in behs:
         rcfg = cfg_from_state(beh[0][1], n, w)
+        if calls != 1:
+            rcfg['calls'] = calls
         mism, ex, trace = replay_behaviour(rcfg, beh)
         ctx.count(evaluations=1)
         if mism == 'ORDER':
@@ -214,7 +221,7 @@ def simulate_and_replay(ctx, wd, name, n, w, configs, num, depth, seed):
 # ---------------------------------------------------------------------------
 # exploration of the implementation and validation of the recorded traces by TLC
 # ---------------------------------------------------------------------------
-def random_cfg(rng, n, w, outcomes, inits=None, cyclic=False, p_edge=0.55):
+def random_cfg(rng, n, w, outcomes, inits=None, cyclic=False, p_edge=0.55, calls=1):
     edges = []
     for i in range(1, n + 1):
         for j in range(1, n + 1):
@@ -223,6 +230,8 @@ def random_cfg(rng, n, w, outcomes, inits=None, cyclic=False, p_edge=0.55):
             if rng.random() < (p_edge if j < i else 0.12):
                 edges.append([i, j, rng.choice(['hard', 'soft'])])
     cfg = dict(n=n, workers=w, edges=edges, outcome={str(i): rng.choice(outcomes) for i in range(1, n + 1)})
+    if calls != 1:
+        cfg['calls'] = calls
     if inits:
         cfg['init'] = {str(i): rng.choice(inits) for i in range(1, n + 1)}
         cfg['init'] = {k: v for k, v in cfg['init'].items() if v != 'ABSENT'}
@@ -328,12 +337,12 @@ def dfs_explore(ctx, cfg, max_execs):
     return traces, len(visited), complete
 
 
-def tlc_validate(ctx, wd, traces, n, w, strict, tag):
+def tlc_validate(ctx, wd, traces, n, w, strict, tag, calls=1):
     """Validate a batch of traces (same N, W) with TLC; returns (reached list, failing list)."""
     tj = tlc.json_dump(os.path.join(wd, 'traces_%s.json' % tag), traces)
     oj = os.path.join(wd, 'out_%s.json' % tag)
     cfg = tlc.write_cfg(os.path.join(wd, 'trace_%s.cfg' % tag), spec='TSpec',
-                        constants={'N': n, 'W': w, 'AtomicPublish': True, 'Configs': Raw('{}'), 'None': Raw('None'), 'Strict': strict},
+                        constants={'N': n, 'W': w, 'AtomicPublish': True, 'Calls': calls, 'Configs': Raw('{}'), 'None': Raw('None'), 'Strict': strict},
                         deadlock=False, postcondition='Post')
     res = tlc.run(TRACE, cfg, workers=1, coverage=False, env=dict(VERIF_TRACES=tj, VERIF_OUT=oj), timeout=1700)
     ctx.tlc(res, 'SchedTrace/%s/%s' % (tag, 'strict' if strict else 'observer'))
@@ -345,7 +354,7 @@ def tlc_validate(ctx, wd, traces, n, w, strict, tag):
     return out['reached'], out['failing']
 
 
-def judge_traces(ctx, traces, n, w, wd=None, tag='t'):
+def judge_traces(ctx, traces, n, w, wd=None, tag='t', calls=1):
     """Property-level judgement (observer mode) + drift detection (strict mode) of recorded traces.
     Returns the number of traces violating an invariant owned by ctx.pid."""
     wd = wd or tlc.workdir('schedtr')
@@ -354,7 +363,7 @@ def judge_traces(ctx, traces, n, w, wd=None, tag='t'):
     if not traces:
         return 0
     # observer: invariants on implementation states
-    reached, failing = tlc_validate(ctx, wd, traces, n, w, False, tag + 'o')
+    reached, failing = tlc_validate(ctx, wd, traces, n, w, False, tag + 'o', calls)
     owns = OWNS[ctx.pid]
     for tr, r, fl in zip(traces, reached, failing):
         if r != len(tr['events']) + 2:
@@ -372,7 +381,7 @@ def judge_traces(ctx, traces, n, w, wd=None, tag='t'):
                           '(verdict %s, master raised %r)' % (mine, tr['verdict'], tr['raised']),
                           dict(cfg=tr['cfg'], schedule=tr['schedule'], failing=mine), module='conf_sched')
     # strict: does the implementation still follow the implementation-level model?
-    reached, _ = tlc_validate(ctx, wd, full, n, w, True, tag + 's')
+    reached, _ = tlc_validate(ctx, wd, full, n, w, True, tag + 's', calls)
     ndrift = 0
     for tr, r in zip(full, reached):
         if r != len(tr['events']) + 2 and tr['verdict'] == 'ok':
@@ -389,7 +398,7 @@ def judge_traces(ctx, traces, n, w, wd=None, tag='t'):
 def classify(tr):
     """Finding class of a violating trace (coarse: what kind of configuration it needs)."""
     c = tr['cfg']
-    mal = sorted(set(c['outcome']) & {'none', 'notpair', 'badstatus', 'badupdate'})
+    mal = sorted(set(c['outcome']) & {'none', 'notpair', 'badstatus', 'badupdate', 'nonfinal'})
     inits = sorted(set(c['init']) - {'ABSENT'})
     cyc = _cyclic(dict(edges=c['edges']))
     verdict = 'ok' if tr['verdict'] in ('ok', 'pruned') else tr['verdict']
@@ -402,7 +411,7 @@ def replay_case(case):
     import schedrun
     c = case['cfg']
     cfg = dict(n=c['n'], workers=c['workers'], edges=c['edges'], outcome={str(i + 1): o for i, o in enumerate(c['outcome'])},
-               init={str(i + 1): s for i, s in enumerate(c['init']) if s != 'ABSENT'})
+               init={str(i + 1): s for i, s in enumerate(c['init']) if s != 'ABSENT'}, calls=c.get('calls', 1))
     ex, trace = schedrun.record(cfg, detsched.Replay(case['schedule']))
 
     class _Ctx:
@@ -424,7 +433,7 @@ def replay_case(case):
         def violation(self, key, what, case_, module=None):
             self.v.append((key, what))
     fake = _Ctx()
-    judge_traces(fake, [trace], c['n'], c['workers'])
+    judge_traces(fake, [trace], c['n'], c['workers'], calls=c.get('calls', 1))
     if fake.v:
         return False, fake.v[0][1]
     return True, 'the recorded schedule no longer violates %s' % case['failing']
@@ -435,9 +444,13 @@ def replay_case(case):
 # ---------------------------------------------------------------------------
 def _witnesses(ctx, wd, wits, n, w, configs):
     for wit in wits:
+        calls = 1
         if isinstance(wit, tuple):
-            wit, n, w, configs = wit
-        cfg = tlc.write_cfg(os.path.join(wd, wit + '.cfg'), constants=_consts(n, w, configs), invariants=[wit], deadlock=False)
+            if len(wit) == 5:
+                wit, n, w, configs, calls = wit
+            else:
+                wit, n, w, configs = wit
+        cfg = tlc.write_cfg(os.path.join(wd, wit + '.cfg'), constants=_consts(n, w, configs, calls=calls), invariants=[wit], deadlock=False)
         res = tlc.run(SPEC_MC, cfg, coverage=False, timeout=900)
         ctx.tlc(res, 'Sched/witness/' + wit)
         if res.violation != ('invariant', wit):
@@ -465,23 +478,27 @@ def _common(ctx, invs, mc_runs, witnesses, impl_plan, sim_plan, dfs_plan):
                 expect_violation=['C01_PayloadVisible'], coverage=False)
     # spec -> code
     all_groups = {}
-    for name, n, w, configs, num, depth in sim_plan:
-        traces, ndrift = simulate_and_replay(ctx, wd, name, n, w, configs, num, depth, ctx.seed + 1)
-        all_groups.setdefault((n, w), []).extend(traces)
+    for item in sim_plan:
+        name, n, w, configs, num, depth = item[:6]
+        calls = item[6] if len(item) > 6 else 1
+        traces, ndrift = simulate_and_replay(ctx, wd, name, n, w, configs, num, depth, ctx.seed + 1, calls=calls)
+        all_groups.setdefault((n, w, calls), []).extend(traces)
         ctx.cov['replayed_behaviours'] = ctx.cov.get('replayed_behaviours', 0) + len(traces)
         ctx.cov['replay_mismatches'] = ctx.cov.get('replay_mismatches', 0) + ndrift
     # code -> spec
-    for n, w, outcomes, inits, cyclic, ncfg, per in impl_plan:
-        rng = random.Random(ctx.seed * 7919 + n * 31 + w)
-        cfgs = [random_cfg(rng, n, w, outcomes, inits, cyclic) for _ in range(ncfg)]
-        all_groups.setdefault((n, w), []).extend(explore(ctx, cfgs, per, ctx.seed))
+    for item in impl_plan:
+        n, w, outcomes, inits, cyclic, ncfg, per = item[:7]
+        calls = item[7] if len(item) > 7 else 1
+        rng = random.Random(ctx.seed * 7919 + n * 31 + w + 1000 * calls)
+        cfgs = [random_cfg(rng, n, w, outcomes, inits, cyclic, calls=calls) for _ in range(ncfg)]
+        all_groups.setdefault((n, w, calls), []).extend(explore(ctx, cfgs, per, ctx.seed))
     for cfg, budget in dfs_plan:
         traces, nstates, complete = dfs_explore(ctx, cfg, budget)
-        all_groups.setdefault((cfg['n'], cfg['workers']), []).extend(traces)
+        all_groups.setdefault((cfg['n'], cfg['workers'], cfg.get('calls', 1)), []).extend(traces)
         ctx.cov.setdefault('dfs', []).append(dict(cfg=cfg, executions=len(traces), distinct_states=nstates, complete=complete))
-    for (n, w), traces in sorted(all_groups.items()):
+    for (n, w, calls), traces in sorted(all_groups.items()):
         for k in range(0, len(traces), 1500):
-            judge_traces(ctx, traces[k:k + 1500], n, w, wd, tag='n%dw%d_%d' % (n, w, k))
+            judge_traces(ctx, traces[k:k + 1500], n, w, wd, tag='n%dw%dc%d_%d' % (n, w, calls, k), calls=calls)
     smp = next(iter(all_groups.values()))[0] if all_groups else None
     if smp:
         ctx.sample(dict(cfg=smp['cfg'], schedule=smp['schedule'], verdict=smp['verdict'], last_event=smp['events'][-1] if smp['events'] else None))
@@ -491,7 +508,7 @@ def _common(ctx, invs, mc_runs, witnesses, impl_plan, sim_plan, dfs_plan):
              '(configuration, schedule) pairs executed on the implementation.')
 
 
-OUT_ALL = ['ok', 'fail', 'raise', 'none', 'notpair', 'badstatus', 'badupdate']
+OUT_ALL = ['ok', 'fail', 'raise', 'none', 'notpair', 'badstatus', 'badupdate', 'nonfinal']
 CHAIN3 = dict(n=3, workers=2, edges=[[2, 1, 'hard'], [3, 2, 'soft']], outcome={})
 DIAMOND = dict(n=4, workers=2, edges=[[2, 1, 'hard'], [3, 1, 'soft'], [4, 2, 'hard'], [4, 3, 'hard']], outcome={'3': 'raise'})
 PAIR = dict(n=2, workers=2, edges=[[2, 1, 'hard']], outcome={})
@@ -528,6 +545,8 @@ def run_c02(ctx):
                        (5, 2, OUT_ALL, None, False, ctx.pick(8, 40), ctx.pick(8, 25))],
             sim_plan=[('c02sim_n3w2', 3, 2, 'MC_DagEmptyMal', ctx.pick(250, 2500), 60)],
             dfs_plan=[(dict(PAIR, outcome={'1': 'badstatus'}), ctx.pick(1500, 40000))] + ([] if q else [(DIAMOND, 60000)]))
+    import conf_decide
+    conf_decide.run(ctx, tlc.workdir('c02decide'), 'C02')
 
 
 def run_c03(ctx):
@@ -535,17 +554,20 @@ def run_c03(ctx):
     mc = [('c03_n2w2_any', 2, 2, 'MC_AnyInit', {}),
           ('c03_n2w2_init', 2, 2, 'MC_DagInit', {}),
           ('c03_n3w2', 3, 2, 'MC_DagEmpty3', {}),
+          ('c03_n2w2_twice', 2, 2, 'MC_DagInitDone', dict(calls=2)),
           ('c03_live_n2w2', 2, 2, 'MC_DagEmptyAll', dict(spec='FairSpec', properties=['C03_Terminates'], coverage=False))]
     if not q:
         mc += [('c03_n3w2_any', 3, 2, 'MC_AnyEmpty', {}), ('c03_n3w3', 3, 3, 'MC_DagEmpty3', {}),
                ('c03_n3w2_mal', 3, 2, 'MC_DagEmptyMal', {}), ('c03_n3w2_init', 3, 2, 'MC_DagInit', {}),
                ('c03_live_n3w2', 3, 2, 'MC_DagEmpty3', dict(spec='FairSpec', properties=['C03_Terminates'], coverage=False))]
-    _common(ctx, INV_C03, mc, [('W_Raised', 2, 2, 'MC_AnyInit'), 'W_WaitReached', 'W_NotifyNobody'],
+    _common(ctx, INV_C03, mc, [('W_Raised', 2, 2, 'MC_AnyInit'), 'W_WaitReached', 'W_NotifyNobody', ('W_SecondCall', 2, 2, 'MC_DagInitDone', 2)],
             impl_plan=[(3, 2, OUT_ALL, ['ABSENT', 'ABSENT', 'DONE', 'FAILED', 'SKIPPED'], True, ctx.pick(30, 150), ctx.pick(10, 25)),
                        (4, 3, OUT_ALL, ['ABSENT', 'DONE'], True, ctx.pick(15, 80), ctx.pick(10, 25)),
                        (2, 1, OUT_ALL, ['ABSENT', 'DONE', 'FAILED'], True, ctx.pick(15, 40), ctx.pick(4, 8)),
-                       (5, 4, OUT_ALL, None, False, ctx.pick(8, 40), ctx.pick(8, 25))],
-            sim_plan=[('c03sim_n2w2', 2, 2, 'MC_AnyInit', ctx.pick(200, 2000), 50)],
+                       (5, 4, OUT_ALL, None, False, ctx.pick(8, 40), ctx.pick(8, 25)),
+                       (3, 2, ['ok', 'ok', 'fail', 'badstatus'], ['ABSENT', 'DONE'], False, ctx.pick(15, 60), ctx.pick(6, 15), 2)],
+            sim_plan=[('c03sim_n2w2', 2, 2, 'MC_AnyInit', ctx.pick(200, 2000), 50),
+                      ('c03sim_twice', 2, 2, 'MC_DagInitDone', ctx.pick(100, 800), 80, 2)],
             dfs_plan=[(dict(PAIR, outcome={'1': 'notpair'}), ctx.pick(1500, 40000))] + ([] if q else [(CHAIN3, 60000)]))
     real_thread_drivers(ctx)
 
@@ -576,6 +598,7 @@ class P(Task):
         if o == 'notpair': return (1, 2, 3)
         if o == 'badstatus': return {}, 'nope'
         if o == 'badupdate': return 42, TaskStatus.DONE
+        if o == 'nonfinal': return {self.name: {'x': 1}}, TaskStatus.PENDING
 ts = {i: P('t%%d' %% i, case['outcome'].get(str(i), 'ok')) for i in range(1, case['n'] + 1)}
 hard = {ts[i]: [] for i in ts}; soft = {ts[i]: [] for i in ts}
 for i, j, k in case['edges']:
@@ -584,7 +607,8 @@ env = Env({'t%%s' %% k: {'status': getattr(TaskStatus, v)} for k, v in case.get(
 s = Scheduler(hard_graph=DepGraph.from_dependency_dictionary(hard), soft_graph=DepGraph.from_dependency_dictionary(soft),
               backend=QueueScheduling(n_workers=case['workers']))
 try:
-    s.schedule(env=env)
+    for _ in range(case.get('calls', 1)):
+        s.schedule(env=env)
     print('RETURNED')
 except Exception as ex:
     print('RAISED', type(ex).__name__)
@@ -598,7 +622,9 @@ def real_thread_drivers(ctx):
              dict(n=2, workers=2, edges=[[2, 1, 'hard']], outcome={'1': 'notpair'}),
              dict(n=2, workers=2, edges=[[2, 1, 'hard']], outcome={'1': 'badstatus'}),
              dict(n=2, workers=1, edges=[[2, 1, 'soft']], outcome={'1': 'badupdate'}),
-             dict(n=2, workers=2, edges=[[2, 1, 'hard']], outcome={}, init={'1': 'FAILED'})]
+             dict(n=2, workers=2, edges=[[2, 1, 'hard']], outcome={}, init={'1': 'FAILED'}),
+             dict(n=2, workers=2, edges=[[2, 1, 'hard']], outcome={'1': 'nonfinal'}),
+             dict(n=2, workers=2, edges=[[2, 1, 'hard']], outcome={}, calls=2)]
     import core
     procs = []
     for case in cases:
